@@ -100,6 +100,16 @@ Theorem merged_tree_conserves : forall (h : N -> N -> N) (limit : Z) (Ps : list 
 Proof. exact merged_profiles_conserve. Qed.
 Print Assumptions merged_tree_conserves.
 
+(* node-by-node reading of the same, when every node id occurs once in the merged tree: each node's
+   total is its self value plus the totals of the nodes naming it as parent (modulo 2^64) *)
+Theorem merged_nodes_conserve : forall (limit : Z) (rows : list row) (fs : list (N * Z)),
+  Z.of_nat (length rows) <= limit -> Forall row_in_range rows -> rconserves rows ->
+  let out := rows_of (m_nodes (merge_trie limit new_tree rows fs)) in
+  NoDup (map r_id out) ->
+  forall o, In o out -> r_id o <> 0%N -> r_total o = wrap64 (r_self o + rchild_tot out (r_id o)).
+Proof. exact ProfTreeProofs.merged_nodes_conserve. Qed.
+Print Assumptions merged_nodes_conserve.
+
 (* Tree.Total() of the merged tree is the sum of the root totals of the rows (modulo 2^64) *)
 Theorem flamegraph_total_is_sum : forall (limit : Z) (rows : list row) (fs : list (N * Z)),
   Z.of_nat (length rows) <= limit ->
